@@ -48,7 +48,7 @@ SIM_SRCS := sim/sched.cpp sim/runner.cpp sim/sanopts.cpp
 SIM_OBJS := $(patsubst sim/%.cpp,$(B)/sim/%.o,$(SIM_SRCS))
 $(B)/sim/%.o: sim/%.cpp sim/sim.h sim/internal.h sim/prng.h
 	@mkdir -p $(dir $@)
-	$(CXX) -std=c++14 $(COMMON) $(SIMSAN) -c $< -o $@
+	$(CXX) -std=c++14 $(COMMON) $(SIMSAN) -fno-gnu-unique -c $< -o $@
 
 # One relocatable object whose template instantiations are local, so that the
 # linker can never merge libsim's (uninstrumented) std:: code with tbox's.
